@@ -29,12 +29,34 @@ ASSUMPTIONS = [
 IDS = ["id:a", "id:b", "https://x/ä b"]
 
 
+_FALSY: dict = {}
+
+
+def falsy_classes():
+    """application-defined identifiables that are FALSY objects: a container-like Submodel whose len() is its number of elements
+    (empty: falsy), a concept description with an explicit __bool__.  An object's truth value says nothing about whether a
+    provider holds it."""
+    from basyx.aas import model
+    if not _FALSY:
+        _FALSY["sm"] = type("SizedSubmodel", (model.Submodel,), {"__len__": lambda self: len(self.submodel_element)})
+        _FALSY["cd"] = type("NeverTrueConceptDescription", (model.ConceptDescription,), {"__bool__": lambda self: False})
+    return _FALSY
+
+
+def known_obj(identifier: str, k: int):
+    """the object a generator test store holds under an identifier: plain or falsy, by position"""
+    from basyx.aas import model
+    f = falsy_classes()
+    return [model.Submodel, f["sm"], model.ConceptDescription, f["cd"]][k % 4](identifier)
+
+
 def make_pool():
     from basyx.aas import model
+    f = falsy_classes()
     pool = [
-        model.Submodel("id:a"), model.Submodel("id:a"),
+        model.Submodel("id:a"), f["sm"]("id:a"),
         model.AssetAdministrationShell(model.AssetInformation(global_asset_id="g"), "id:a"),
-        model.ConceptDescription("id:b"), model.Submodel("id:b"),
+        f["cd"]("id:b"), f["sm"]("id:b"),
         model.Submodel("https://x/ä b"),
     ]
     return pool
@@ -254,8 +276,8 @@ def correspond(ctx: C.Ctx, cov: C.Coverage) -> List[C.Disagreement]:
         g = identification.NamespaceIRIGenerator(ns, store)
         for (p, known, keep) in calls:
             store.clear()
-            for k in known:
-                store.add(model.Submodel(k))
+            for kk, k in enumerate(known):
+                store.add(known_obj(k, kk + len(p or "")))
             r = g.generate_id(p)
             lines.append(["generate", known, p]); impl.append(["id", r]); index.append(("gen", gi))
             cov.hit("generate")
@@ -375,8 +397,8 @@ def check_generator(case) -> Optional[C.Failing]:
     g = identification.NamespaceIRIGenerator(ns, store)
     for (p, known, keep) in calls:
         store.clear()
-        for k in known:
-            store.add(model.Submodel(k))
+        for kk, k in enumerate(known):
+            store.add(known_obj(k, kk + len(p or "")))
         r = g.generate_id(p)
         if not r.startswith(ns):
             return C.Failing("gen:outside-namespace", f"generate_id({p!r}) = {r!r} not in {ns!r}", ["gen", case], r)
